@@ -26,12 +26,13 @@ struct Case
     unsigned nthreads;
     int pre;     // call made on the same object BEFORE the measured one (non-initial object state): 0 none, 1/2 extendPol with another N, 3 NTT of the full domain
     int team0;   // OpenMP default team size in force when the case starts (0: the process default)
+    int outer;   // > 0: the call is made by each of `outer` threads of a parallel region of the CALLER, every thread on its own object and buffers
     int plant;   // 0: impulse basis + dense input; 1/2: boundary values planted at a stage of the pipeline (see run_case_planted)
 };
 static std::string casestr(const Case &c)
 {
     return fmt("mode=%s D=%llu n=%llu next=%llu ncols=%llu nphase=%s nblock=%s buf=%d dst=%d nthreads=%u pre=%d", mname[c.mode], (unsigned long long)c.D, (unsigned long long)c.n,
-               (unsigned long long)c.next, (unsigned long long)c.ncols, hex(c.nphase).c_str(), hex(c.nblock).c_str(), c.buf, c.dst, c.nthreads, c.pre) + (c.team0 ? fmt(" team0=%d", c.team0) : std::string()) + (c.plant ? fmt(" plant=%d", c.plant) : std::string());
+               (unsigned long long)c.next, (unsigned long long)c.ncols, hex(c.nphase).c_str(), hex(c.nblock).c_str(), c.buf, c.dst, c.nthreads, c.pre) + (c.team0 ? fmt(" team0=%d", c.team0) : std::string()) + (c.outer ? fmt(" outer=%d", c.outer) : std::string()) + (c.plant ? fmt(" plant=%d", c.plant) : std::string());
 }
 static int g_team0; // OpenMP default team size at start-up: restored before every case, so that a case never depends on the cases the same worker ran before
 static unsigned lg(u64 x) { return nttor::lg(x); }
@@ -212,9 +213,59 @@ static void run_case_planted(const Case &c)
     rep().stat("planted_stage_calls", calls);
 }
 
+// ---- the caller is itself parallel: `outer` threads of a parallel region opened by the harness call the transform at the same
+// time, each on its own object, source, destination and scratch buffer (nothing is shared between the callers).  Whatever
+// OpenMP constructs the library uses then bind to a team the library did not create; every caller must still get the transform
+// of its own input (dense non-canonical input, different per caller).
+static void run_case_outer(const Case &c)
+{
+    const u64 n = c.n, ncols = c.ncols, nout = (c.mode == M_EXT) ? c.next : n;
+    const std::string prop = propof[c.mode];
+    std::vector<u64> K = kernel(c);
+    const int T = c.outer;
+    std::vector<std::string> fails(T);
+    size_t nsrc = n * ncols, ndst = nout * ncols;
+    size_t srclen = (c.mode == M_EXT && c.dst == 0) ? ndst : nsrc;
+#pragma omp parallel num_threads(T)
+    {
+        int me = omp_get_thread_num();
+        if (me < T)
+        {
+            NTT_Goldilocks ntt(c.D, c.nthreads);
+            std::vector<E> src(srclen), dst(ndst + 1), buf(ndst + 1);
+            std::vector<u64> in(nsrc);
+            for (u64 j = 0; j < n; j++) for (u64 cc = 0; cc < ncols; cc++)
+            {
+                u64 v = ((j * 7 + cc * 13 + 1 + (u64)me * 101) * 0x9E3779B97F4A7C15ULL);
+                if ((j + cc + me) % 3 == 0) v = ~0ULL - (j + cc);
+                in[j * ncols + cc] = v;
+            }
+            for (size_t i = 0; i < srclen; i++) src[i].fe = (i < nsrc) ? in[i] : (0x5E5E5E5E5E5E5E5EULL ^ i);
+            E *d = (c.dst == 0) ? src.data() : dst.data() + 1;
+            E *b = c.buf ? buf.data() : nullptr;
+            if (c.mode == M_NTT) ntt.NTT(d, src.data(), n, ncols, b, c.nphase, c.nblock);
+            else if (c.mode == M_INTT) ntt.INTT(d, src.data(), n, ncols, b, c.nphase, c.nblock);
+            else ntt.extendPol(d, src.data(), nout, n, ncols, b, c.nphase, c.nblock);
+            for (u64 k = 0; k < nout && fails[me].empty(); k++)
+                for (u64 cc = 0; cc < ncols; cc++)
+                {
+                    u64 ex = 0;
+                    for (u64 j = 0; j < n; j++) ex = F.add(ex, F.mul(in[j * ncols + cc], K[j * nout + k]));
+                    u64 g = d[k * ncols + cc].fe;
+                    if (g % GP != ex) { fails[me] = fmt("caller %d of %d: out[%llu][%llu] = %s expected %s", me, T, (unsigned long long)k, (unsigned long long)cc, hex(g).c_str(), hex(ex).c_str()); break; }
+                }
+        }
+    }
+    rep().stat("transitions", T);
+    rep().stat("evaluations", T);
+    for (auto &f : fails)
+        if (!f.empty()) { rep().viol(prop + ".wrong." + mname[c.mode] + ".caller-parallel." + fail_class(c), casestr(c), f); return; }
+}
+
 static void run_case(const Case &c)
 {
     omp_set_num_threads(c.team0 ? c.team0 : g_team0);
+    if (c.outer) { run_case_outer(c); return; }
     if (c.plant) { run_case_planted(c); return; }
     if (c.n > 1024 || c.next > 1024) { run_case_big(c); return; }
     const u64 n = c.n, ncols = c.ncols;
@@ -314,7 +365,7 @@ static bool parse(const std::string &s, Case &c)
     for (int i = 0; i < NMODE; i++) if (mo == mname[i]) c.mode = i;
     if (c.mode < 0) return false;
     c.D = cu(m, "D"); c.n = cu(m, "n"); c.next = cu(m, "next"); c.ncols = cu(m, "ncols");
-    c.nphase = cu(m, "nphase"); c.nblock = cu(m, "nblock"); c.buf = (int)cu(m, "buf"); c.dst = (int)cu(m, "dst"); c.nthreads = (unsigned)cu(m, "nthreads"); c.pre = (int)cu(m, "pre"); c.plant = (int)cu(m, "plant", 0); c.team0 = (int)cu(m, "team0", 0);
+    c.nphase = cu(m, "nphase"); c.nblock = cu(m, "nblock"); c.buf = (int)cu(m, "buf"); c.dst = (int)cu(m, "dst"); c.nthreads = (unsigned)cu(m, "nthreads"); c.pre = (int)cu(m, "pre"); c.plant = (int)cu(m, "plant", 0); c.team0 = (int)cu(m, "team0", 0); c.outer = (int)cu(m, "outer", 0);
     return true;
 }
 static void report_crash(const Case &c, const ChildResult &r)
@@ -566,6 +617,25 @@ int main(int argc, char **argv)
         rep().stat("cases_from_thread_count_sweep", added);
     }
     {
+        // the transform called from inside a parallel region of the caller (run_case_outer)
+        int mode = which == "C03" ? M_NTT : which == "C04" ? M_INTT : M_EXT;
+        long long added = 0;
+        if (!args.num("light", 0))
+        for (u64 n : {4ULL, 16ULL, 64ULL})
+            for (u64 ncols : {2ULL, 5ULL})
+                for (u64 ph : {1ULL, 2ULL, 3ULL})
+                    for (u64 bl : {1ULL, 2ULL, 3ULL})
+                        for (int dst = 0; dst < 2; dst++)
+                            for (int buf = 0; buf < 2; buf++)
+                                for (int outer : {2, 3})
+                                {
+                                    Case c = {mode, n, mode == M_EXT ? n / 2 : n, mode == M_EXT ? n : 0, ncols, ph, bl, buf, dst, (unsigned)(outer == 2 ? 3 : 1), 0, 0, outer, 0};
+                                    cases.push_back(c);
+                                    added++;
+                                }
+        rep().stat("cases_called_from_a_parallel_region", added);
+    }
+    {
         // boundary words planted at a pipeline stage (run_case_planted)
         int mode = which == "C03" ? M_NTT : which == "C04" ? M_INTT : M_EXT;
         long long added = 0;
@@ -580,7 +650,7 @@ int main(int argc, char **argv)
                                 if (mode != M_EXT && e != 2) continue;
                                 if (!th && n == 16 && (ph != 3 || bl != 1)) continue;
                                 unsigned t = (ph == 3 && bl == 1) ? 3 : 1;
-                                Case c = {mode, mode == M_EXT ? n : n, n, mode == M_EXT ? n * e : 0, ncols, ph, bl, 0, 1, t, 0, 0, plant};
+                                Case c = {mode, mode == M_EXT ? n : n, n, mode == M_EXT ? n * e : 0, ncols, ph, bl, 0, 1, t, 0, 0, 0, plant};
                                 cases.push_back(c);
                                 added++;
                             }
